@@ -104,7 +104,7 @@ def validate(module, cfg, events, timeout=600, xmx="4g"):
         consumed = max(0, len(re.findall(r"^State \d+:", r.trace_text, re.M)) - 1)
     return acc, consumed, r
 
-def validate_scripts(ctx, module, cfg, items, timeout=600, batch=400):
+def validate_scripts(ctx, module, cfg, items, timeout=600, batch=400, first_event=None):
     """items: list of (Script, events). Validates in batches (events concatenated; every script starts with a reset event).
     Returns list of (Script, events, consumed_in_script, TlcResult) for rejected scripts."""
     rejected = []
